@@ -82,7 +82,8 @@ Proof.
       [reflexivity|].
     destruct (has om OpenCreateExcl); [reflexivity|].
     cbv zeta. cbn [snd fst new_handle hd_name hd_mode hd_node with_heap f_heap]. repeat split; auto.
-    exists c. split; auto. right. exists (if has om OpenTruncate then [] else d), k, i, m.
+    exists c. split; auto. right. exists (if has om OpenTruncate then [] else d), k, i,
+      (if has om OpenTruncate then drop_privs (v_user v) m else m).
     apply get_upd_same. eapply get_lt; eauto.
   - cbn [snd fst new_handle hd_name hd_mode hd_node]. repeat split; eauto.
   - cbn [snd fst new_handle hd_name hd_mode hd_node]. repeat split; eauto.
